@@ -8,7 +8,7 @@ from __future__ import annotations
 
 from htmltools import HTML, HTMLDependency, Tag, TagList, is_tag_child, is_tag_node
 
-from engine.api import harness
+from engine.api import conc, concrete, harness
 
 
 import enum
@@ -85,7 +85,7 @@ _T1 = Tag("b", "one")
 _T2 = Tag("i")
 _DEP = HTMLDependency("d", "1.0")
 _H = HTML("<h>")
-N_KIND = 19
+N_KIND = 20
 
 
 def arg(kind: int, s: str):
@@ -125,6 +125,10 @@ def arg(kind: int, s: str):
         return Pair("n1", MyList(["n2", Pair(None, 4)]))       # tuple / list subclasses are spliced like tuples / lists
     if kind == 18:
         return MyStr("sub<class")                              # a str subclass is a string: kept whole
+    if kind == 19:
+        row = [s, _T2]
+        shared = TagList("q", _T1)
+        return [row, (row, [row]), shared, [shared]]          # ONE container object at several places of the structure: spliced at each
     return [[[_T1]], TagList(), (None,)]
 
 
@@ -154,7 +158,7 @@ def _pre(B, op, st, kx, ky, idx, s):
          shard=lambda B: [{"op": o, "kx": k} for o in range(N_OP) for k in range(N_KIND) if not (o in (7, 8, 9) and k > 0) and not (o in (10, 11) and k > 1)],
          sym=["s: str over all code points, len <= L (text of string arguments)", "idx: insertion / slice / repeat index in [-3, 3]"],
          sel=["op: 19 child operations (constructor, append, extend, insert, +, reflected +, +=, slicing, repetition, Tag delegates)",
-              "st: 4 valid pre-states", "kx, ky: argument shapes (scalars, None, nested lists/tuples/TagLists to depth 3, tags, HTML, dependency, invalid objects at depth 0-2, int/float subclasses whose repr differs from str)"],
+              "st: 4 valid pre-states", "kx, ky: argument shapes (scalars, None, nested lists/tuples/TagLists to depth 3, tags, HTML, dependency, invalid objects at depth 0-2, int/float subclasses whose repr differs from str, one container object occurring several times)"],
          targets=["htmltools._core._tagchilds_to_tagnodes", "htmltools._util.flatten", "htmltools._core.TagList.extend", "htmltools._core.TagList.insert",
                   "htmltools._core.TagList.__add__", "htmltools._core.TagList.__radd__", "htmltools._core.TagList.__iadd__", "htmltools._core.is_tag_child"],
          timeout={"quick": 200, "thorough": 900})
@@ -268,6 +272,120 @@ def h_ops(op: int, st: int, kx: int, ky: int, idx: int, s: str) -> bool:
     if op in (7, 8, 9):
         return is_tag_child(s)
     return is_tag_child(X) and (op in (16, 18) or is_tag_child(Y))
+
+
+N_TOK = 8
+
+
+def build_nested(toks):
+    """token vector -> argument list: 0 text, 1 None, 2 number, 3 '[' opens a list, 4 '(' opens a tuple,
+    5 closes the innermost open container (ignored when none is open), 6 an invalid object, 7 a tag;
+    containers still open at the end are closed there.  Depth and fan-out are whatever the vector spells."""
+    stack = [[]]
+    kinds = []
+    for t in toks:
+        if t == 0:
+            stack[-1].append("x<")
+        elif t == 1:
+            stack[-1].append(None)
+        elif t == 2:
+            stack[-1].append(3)
+        elif t == 3 or t == 4:
+            stack.append([])
+            kinds.append(t)
+        elif t == 5:
+            if kinds:
+                c = stack.pop()
+                stack[-1].append(c if kinds.pop() == 3 else tuple(c))
+        elif t == 6:
+            stack[-1].append(Bad())
+        else:
+            stack[-1].append(_T1)
+    while kinds:
+        c = stack.pop()
+        stack[-1].append(c if kinds.pop() == 3 else tuple(c))
+    return stack[0]
+
+
+N_NOP = 9
+
+
+def _pre_nested(B, op, t0, t1, t2, t3, t4, t5):
+    n = B["N"]
+    ts = (t0, t1, t2, t3, t4, t5)
+    for i in range(6):
+        if i < n:
+            if not 0 <= ts[i] < N_TOK:
+                return False
+        elif ts[i] != 5:
+            return False
+    return 0 <= op < N_NOP
+
+
+@harness("C14", pre=_pre_nested, bounds={"quick": {"N": 4}, "thorough": {"N": 6}},
+         shard=lambda B: [{"op": o, "t0": t} for o in range(N_NOP) for t in range(N_TOK)],
+         sel=["t0..t5: a token vector spelling the argument structure (text, None, number, open list, open tuple, close, invalid object, tag): "
+              "every nesting shape of at most N tokens, depth up to N", "op: 9 operations receiving that structure"],
+         targets=["htmltools._core._tagchilds_to_tagnodes", "htmltools._util.flatten", "htmltools._util._flatten_recurse", "htmltools._core.TagList.extend",
+                  "htmltools._core.TagList.insert", "htmltools._core.TagList.__add__", "htmltools._core.TagList.__radd__", "htmltools._core.TagList.__iadd__",
+                  "htmltools._core.Tag.__init__"],
+         outside="argument structures of more than N tokens; leaf values other than the four of the token alphabet (h_ops varies those)",
+         timeout={"quick": 200, "thorough": 1500})
+def h_nested(op: int, t0: int, t1: int, t2: int, t3: int, t4: int, t5: int) -> bool:
+    return concrete(_nested_body, conc(op, 0, N_NOP - 1), conc(t0, 0, N_TOK - 1), conc(t1, 0, N_TOK - 1), conc(t2, 0, N_TOK - 1),
+                    conc(t3, 0, N_TOK - 1), conc(t4, 0, N_TOK - 1), conc(t5, 0, N_TOK - 1))
+
+
+def _nested_body(op, t0, t1, t2, t3, t4, t5) -> bool:
+    items = build_nested((t0, t1, t2, t3, t4, t5))
+    pre = ["a", _T1]
+    tl = TagList()
+    tl.data = list(pre)
+    try:
+        flat = ref_flatten(items)
+        ok = True
+    except _Invalid:
+        flat, ok = None, False
+    mutates = op in (1, 2, 5, 6, 8)
+    try:
+        if op == 0:
+            res, want = TagList(tl, *items), (pre + flat if ok else None)
+        elif op == 1:
+            tl.append("h", *items)
+            res, want = tl, (pre + ["h"] + flat if ok else None)
+        elif op == 2:
+            tl.extend(items)
+            res, want = tl, (pre + flat if ok else None)
+        elif op == 3:
+            res, want = tl + items, (pre + flat if ok else None)
+        elif op == 4:
+            res, want = items + tl, (flat + pre if ok else None)
+        elif op == 5:
+            orig = tl
+            tl += items
+            if tl is not orig:
+                return False
+            res, want = tl, (pre + flat if ok else None)
+        elif op == 6:
+            tl.insert(1, items)          # one argument: the whole structure is one child, flattened in place
+            res, want = tl, (pre[:1] + flat + pre[1:] if ok else None)
+        elif op == 7:
+            t = Tag("div", "k", *items)
+            res, want = t.children, (["k"] + flat if ok else None)
+        else:
+            t = Tag("div", "k")
+            t.insert(0, tuple(items))
+            res, want = t.children, (flat + ["k"] if ok else None)
+    except TypeError:
+        # legitimate exactly when the reference rejects the structure; the receiver is then unchanged
+        return (not ok) and same_nodes(tl.data, pre)
+    if not ok:
+        return False                       # an invalid object at some depth was accepted
+    if not isinstance(res, TagList) or not same_nodes(res.data, want) or not _valid(res):
+        return False
+    if not mutates and not same_nodes(tl.data, pre):
+        return False
+    return is_tag_child(items)
 
 
 def _valid(tl) -> bool:
